@@ -1534,3 +1534,53 @@ pub fn nth_tag_split(i: u64) -> String {
     }
     String::new()
 }
+
+/// What follows a dedent: a block nest of d levels (sequence entries on one line, or mappings
+/// by indentation), closed partly or completely by one less-indented line that starts with
+/// every kind of node or key. The tokens queued for the closed levels and the candidate key of
+/// the new line meet in the scanner's queue.
+pub const DEDENT_DEPTHS: [usize; 8] = [1, 2, 3, 4, 5, 6, 9, 17];
+pub const DEDENT_CONTS: [&str; 22] = [
+    "{a: b}: c", "[a, b]: c", "[a: b]: c", "[{a: b}]: c", "? k\n: v", "k: v", "- y", "*x", "&x y: z", "!t k: v", "\"q\": v", "'q': v", "k:", "- - y", "...", "--- z", "# c",
+    "k: |\n  t", "? [a: b]\n: c", "{a: b}", "k: {a: b}: c", "- {a: b}: c",
+];
+pub fn dedent_count() -> u64 {
+    (2 * DEDENT_DEPTHS.len() * 3 * DEDENT_CONTS.len()) as u64
+}
+pub fn nth_dedent(i: u64) -> String {
+    let cont = DEDENT_CONTS[(i % DEDENT_CONTS.len() as u64) as usize];
+    let i = i / DEDENT_CONTS.len() as u64;
+    let to = (i % 3) as usize;
+    let i = i / 3;
+    let d = DEDENT_DEPTHS[(i % DEDENT_DEPTHS.len() as u64) as usize];
+    let by_indent = (i / DEDENT_DEPTHS.len() as u64) % 2 == 1;
+    let mut s = String::from("top:\n");
+    let target;
+    if by_indent {
+        // k1:\n  k2:\n    ... x
+        for l in 0..d {
+            s.push_str(&" ".repeat(2 + 2 * l));
+            s.push_str(&format!("k{l}:\n"));
+        }
+        s.push_str(&" ".repeat(2 + 2 * d));
+        s.push_str("x\n");
+        target = [0, 2, 2 + 2 * (d / 2)][to];
+    } else {
+        s.push_str("  ");
+        for _ in 0..d {
+            s.push_str("- ");
+        }
+        s.push_str("x\n");
+        target = [0, 2, 2 + 2 * (d / 2)][to];
+    }
+    let pad = " ".repeat(target);
+    for (k, line) in cont.split('\n').enumerate() {
+        if k > 0 {
+            s.push('\n');
+        }
+        s.push_str(&pad);
+        s.push_str(line);
+    }
+    s.push('\n');
+    s
+}
